@@ -6,7 +6,8 @@ from ..gtlib import cq, cvec, cmat, cb3, cbool, cseq, jarr, Obs
 from . import common as C, lin, c16
 
 PROP = "C17"
-PROPS_FILE = "props/C17.v"
+PROPS_FILE = ["props/C17.v", "trunc/C17R.v"]
+IMPORTS = "HetBound"
 RULE = ("cases = four links {exp, cosh-1, step, rectified linear} x Dx in 1..2, Dy in 1..2, Da in {Dy, Dy+1}, Dk in 1..2, "
         "non-zero offsets, weight scales {1, 1e-1, 1e-2, 0}; (a) condition_on_x at 3 points; (b) "
         "integrate_log_conditional_y for one observation with one prior component and N observations paired with N prior "
@@ -56,6 +57,10 @@ def gen_descs(g, tier):
         # bounds: Da = Dy and Da > Dy, one and several paired observations
         for (Dx, Dy, Dk, Da, N) in [(1, 1, 1, 1, 1), (1, 2, 1, 2, 2), (1, 1, 1, 2, 1)] + ([(2, 1, 1, 1, 1)] if kind in ("exp", "coshm1") else []):
             out.append(gen_case(g, kind, Dx, Dy, Dk, Da, "bound", N=N))
+        # the pieces of the bound through the model (exp / cosh-1): quadratic integrals, k_func, assembly
+        if kind in ("exp", "coshm1"):
+            for (Dx, Dy, Dk, Da, N) in [(1, 1, 1, 1, 1), (2, 2, 2, 2, 2), (2, 1, 1, 2, 2)] + ([] if q else [(1, 2, 2, 2, 1), (3, 2, 1, 3, 2), (2, 2, 2, 3, 3)]):
+                out.append(gen_case(g, kind, Dx, Dy, Dk, Da, "parts", N=N))
         # tightness in the homoscedastic limit (Da = Dy)
         base = gen_case(g, kind, 1, 1, 1, 1, "bound")
         for sc in (Fr(1, 10), Fr(1, 100), Fr(1, 1000), Fr(0)):
@@ -111,6 +116,38 @@ def true_expected_logp(d, r, y):
     return float(w @ lp)
 
 
+def run_parts(d, c, p, ob, fails):
+    """exp / cosh-1 links: the pieces of the bound through the private per-unit methods (seams: the variational parameters the
+    implementation chose), and the assembled value"""
+    import numpy as np
+    I = gtlib.impl(); jnp = I["jnp"]
+    kind = d["kind"]; Dk = d["Dk"]; N = d["R"]
+    ys = jarr(d["ys"])
+    A_inv = jnp.einsum('abc,acd->abd', c.Lambda, c.A[:, :, :c.Dk])[0]
+    half = 0.5 if kind == "exp" else 1.0
+    seam = dict(os=[], lcs=[], ths=[], od=[], lcd=[], thd=[], het=[])
+    for i in range(Dk):
+        a_i = A_inv.T[i]
+        od = np.asarray(c._get_omega_dagger(p_x=p, W_i=c.W[i]), dtype=float).reshape(-1)
+        os_ = np.asarray(c._get_omega_star(p_x=p, y=ys, W_i=c.W[i], a_i=a_i), dtype=float).reshape(-1)
+        quad = np.asarray(c._lower_bound_integrals(p, ys, c.W[i], a_i, jnp.array(os_)), dtype=float).reshape(-1)
+        k = np.asarray(c.k_func(p_x=p, W_i=c.W[i], omega_dagger=jnp.array(od)), dtype=float).reshape(-1)
+        if kind == "exp":
+            ob.add("ln quadratic_integral[%d]" % i, np.log(quad))
+        else:
+            ob.add("quadratic_integral[%d]" % i, quad)
+        ob.add("k_func[%d]" % i, k)
+        seam["os"].append(c16.fr(os_)); seam["lcs"].append(c16.fr(np.log(np.cosh(half * os_)))); seam["ths"].append(c16.fr(np.tanh(half * os_)))
+        seam["od"].append(c16.fr(od)); seam["lcd"].append(c16.fr(np.log(np.cosh(half * od)))); seam["thd"].append(c16.fr(np.tanh(half * od)))
+        seam["het"].append(c16.fr(quad))
+        if not (np.all(os_ > 0) and np.all(od > 0)):
+            fails.append(lin.fail(["C17"], "variational parameter not positive (the bound is only valid for positive omega)", "Heteroscedastic[%s]._get_omega_star" % kind))
+    lb = np.asarray(c.integrate_log_conditional_y(p, y=ys), dtype=float).reshape(-1)
+    ob.add("integrate_log_conditional_y", lb)
+    SEAMS[c16.gtlib_fp(d)] = seam
+    return ob, fails
+
+
 def run_impl(d):
     import numpy as np
     d = C.U(d)
@@ -133,6 +170,8 @@ def run_impl(d):
                 np.tile(np.eye(Dy)[None], (len(m), 1, 1)), key=key)
         lin.chk(fails, ["C17"], "ln_det_Sigma is the log-determinant of the covariance", site + ".condition_on_x", o.ln_det_Sigma, np.linalg.slogdet(Sg)[1], key=key)
         return ob, fails
+    if d["scn"] == "parts":
+        return run_parts(d, c, p, ob, fails)
     # ---- lower bounds
     ys = jarr(d["ys"])
     lb = np.asarray(c.integrate_log_conditional_y(p, y=ys), dtype=float).reshape(-1)
@@ -173,8 +212,61 @@ def run_impl(d):
     return ob, fails
 
 
+def enc(x):
+    """a float as the exact 5-integer encoding of a rational model value"""
+    f = Fr(float(x))
+    return [f.numerator, f.denominator, 0, 1, 1]
+
+
+def post_model(d, ints):
+    """cosh-1 parts: quadratic_integral = exp(T+) + exp(T-) - exp(T1) leaves the log domain; the model returns the three
+    logarithms, combined here (everything else passes through unchanged)"""
+    if d.get("scn") != "parts" or d["kind"] != "coshm1":
+        return ints
+    N, Dk, R = d["R"], d["Dk"], d["R"]
+    out = []; pos = 0
+    for i in range(Dk):
+        for n in range(N):
+            t = gtlib.decode5(ints[pos:pos + 15]); pos += 15
+            out += enc(math.exp(gtlib.lfloat(t[0])) + math.exp(gtlib.lfloat(t[1])) - math.exp(gtlib.lfloat(t[2])))
+        out += ints[pos:pos + 5 * R]; pos += 5 * R
+    return out + ints[pos:]
+
+
+def coq_parts(d):
+    """the bound, unit by unit, through model/HetBound.v with the variational parameters the implementation chose"""
+    s = SEAMS[c16.gtlib_fp(d)]
+    Dx, Dy, Dk, Da, N = d["Dx"], d["Dy"], d["Dk"], d["Da"], d["R"]
+    exp = d["kind"] == "exp"
+    pre = "let p := %s in let ys := lxs %s in let A := lm %s in let M := lm %s in let b := lv %s in " % (
+        lin.coq_pdfv(d["p"]), cmat(d["ys"]), cmat(d["A"]), cmat(d["M"]), cvec(d["b"]))
+    parts = []; kqs = []
+    for i in range(Dk):
+        w = "(lv %s)" % cvec(d["W"][i][1:]); b0 = "(%s)" % cq(d["W"][i][0])
+        st = "(lv %s) (lv %s) (lv %s)" % (cvec(s["os"][i]), cvec(s["lcs"][i]), cvec(s["ths"][i]))
+        dg = "(lv %s) (lv %s) (lv %s)" % (cvec(s["od"][i]), cvec(s["lcd"][i]), cvec(s["thd"][i]))
+        geo = "(hb_aM Dy Da Dk A M %d) (hb_ayb Dy Da Dk A b ys %d)" % (i, i)
+        geo = geo.replace("Dy", str(Dy)).replace("Da", str(Da)).replace("Dk", str(Dk))
+        if exp:
+            parts.append("dL %d (hb_exp_quad_ln p %d %d %s %s %s %s)" % (N, N, Dx, w, b0, st, geo))
+            kq = "(hb_exp_kq p %s %s %s)" % (w, b0, dg)
+            parts.append("dL %d (fun r => (emb LQ (%s r) + ln2 LQ)%%R)" % (N, kq))
+        else:
+            parts.append("flatten [seq (let: (tp, tm, t1) := hb_cosh_quad_ln p %d %d %s %s %s %s n in dumpL tp ++ dumpL tm ++ dumpL t1) | n <- iota 0 %d]"
+                         % (N, Dx, w, b0, st, geo, N))
+            kq = "(hb_cosh_kq p %s %s %s)" % (w, b0, dg)
+            parts.append("dL %d (fun r => emb LQ (%s r))" % (N, kq))
+        kqs.append(kq)
+    het = "(fun i => lv (nth [::] %s i))" % gtlib.cseq([cvec(h) for h in s["het"]])
+    kqf = "(fun i => nth vzero %s i)" % gtlib.cseq(kqs)
+    fin = "dL %d (hb_final %d %d %d %d A M b p ys %s %s %d)" % (N, Dy, Da, Dk, Dx, het, kqf, Dk if exp else 0)
+    return "(" + pre + " ++ ".join(parts + [fin]) + ")"
+
+
 def coq_term(d):
     d = C.U(d)
+    if d["scn"] == "parts":
+        return coq_parts(d)
     if d["scn"] != "cond_x":
         return "dnat %d" % d["R"]
     seam = SEAMS[c16.gtlib_fp(d)]
@@ -189,6 +281,6 @@ def coq_cx(d, seam, faithful):
 
 def alt_terms(d):
     d = C.U(d)
-    if d["scn"] != "cond_x":
+    if d["scn"] != "cond_x" or c16.gtlib_fp(d) not in SEAMS:
         return []
     return [coq_cx(d, SEAMS[c16.gtlib_fp(d)], "false")]
